@@ -28,6 +28,19 @@ def run(chk):
             found += chk.violation('record-after-solve', fails[0], {'kind': 'after-solve', 'case': case})
             if found > 2:
                 break
+    # runs driven to the floating-point resolution of the curve coordinate (the method's own guard ends them)
+    for c0 in (0.3, 0.7, 1.0):
+        case = {'n': 1, 'lo': [0.0], 'hi': [1.0], 'objective': {'kind': 'cones', 'centers': [[c0]], 'slopes': [1.0], 'offsets': [0.0]},
+                'r': 2.0, 'eps': 0.0, 'iters': 400}
+        code = ("import sys, json; sys.path.insert(0, '/verif')\nfrom vlib import oracles as O\n"
+                "print('FAILS=' + json.dumps(O.guarded(O.c06_after_solve, %r)))" % (case,))
+        rc, out, dt = H.run_isolated(code, timeout=60)
+        chk.evaluations += 1
+        import json as _json
+        line = [l for l in out.splitlines() if l.startswith('FAILS=')]
+        fails = _json.loads(line[0][6:]) if line else ['Solve did not return within 60 s (run driven to float resolution)']
+        if fails:
+            found += chk.violation('record-at-resolution', fails[0], {'kind': 'after-solve', 'case': case})
     S.report_corr(chk, bad, errors, found)
 
 
